@@ -59,7 +59,7 @@ def event(rows, ids, cid, variant, seed, big=False):
     as_list = ncols == 2 or (v // 2) % 2 == 1
     metric = METRICS[(cid + v) % len(METRICS)]
     normalize = ["none", "by_overall", "by_min"][(v // 4 + cid) % 3]
-    boot = ["none", "identity", "builtin", "identity"][(v // 3 + cid) % 4]
+    boot = ["none", "identity", "builtin", "identity", "scripted"][(v // 3 + cid) % 5]
     method = ["quantile", "bc", "bca"][(cid + v) % 3]
     sc = ["pos", "neg"][(cid + v // 2) % 2]
     ec = ["pos", "neg"][(cid // 2 + v) % 2]
@@ -113,6 +113,22 @@ def event(rows, ids, cid, variant, seed, big=False):
     elif idx_mode == 2:
         df.index = [f"row{(7 * i + 3) % (len(df) + 2)}" for i in range(len(df))][::-1]
     kw = {}
+    stored = []                    # the samples a scripted (non-identity, deterministic) sampler hands out
+
+    def scripted_sampler(src_):
+        from score_analysis import BootstrapConfig as _BC
+        if not stored:
+            stored.append(src_)
+            st_ = np.random.get_state()
+            np.random.seed(1000 + cid)
+            pool = [src_.bootstrap_sample(_BC(sampling_method="replacement", stratified_sampling="by_group"))
+                    for _ in range(5)]
+            np.random.set_state(st_)
+            stored.extend(pool)
+            stored.append(0)
+        i = stored[-1]
+        stored[-1] = i + 1
+        return stored[1 + i % 5]
     if big:
         kw["bootstrap_ci"] = True                            # default sampling method ('dynamic')
         kw["bootstrap_config"] = BootstrapConfig(nb_samples=40, bootstrap_method=method,
@@ -121,7 +137,8 @@ def event(rows, ids, cid, variant, seed, big=False):
         kw["bootstrap_ci"] = True
         kw["bootstrap_config"] = BootstrapConfig(
             nb_samples=5, bootstrap_method=method,
-            sampling_method=(lambda s: s) if boot == "identity" else ["replacement", "dynamic"][cid % 2],
+            sampling_method=(lambda s: s) if boot == "identity" else scripted_sampler if boot == "scripted" else
+            ["replacement", "dynamic"][cid % 2],
             stratified_sampling=None if boot == "identity" else [None, "by_group"][cid % 2])
     # some callers run NumPy with floating-point errors raised instead of warned about (bootstrap off:
     # the bootstrap machinery divides by zero on purpose and relies on the warning mode)
@@ -172,6 +189,28 @@ def event(rows, ids, cid, variant, seed, big=False):
                 if lo is not None and up is not None:
                     e["out"]["lower"] = [[fx6(x) for x in row] for row in np.asarray(lo.values, dtype=float)]
                     e["out"]["upper"] = [[fx6(x) for x in row] for row in np.asarray(up.values, dtype=float)]
+                if boot == "scripted" and normalize != "by_min" and len(stored) == 7:
+                    # the interval formula (utils.bootstrap_ci, decided by C13) applied to the replicates of the
+                    # SAME normalised quantity: the metric of every handed-out sample, group by group, divided by
+                    # the whole-dataset metric of the source (A) or of the sample itself (B)
+                    from score_analysis.utils import bootstrap_ci as _ci
+                    src_, pool = stored[0], stored[1:6]
+                    tharr = np.asarray(ths, dtype=float)
+                    gm = lambda o_: np.asarray(getattr(o_.group_cm(tharr), metric)(), dtype=float)   # noqa
+                    om = lambda o_: np.asarray(getattr(o_.cm(tharr), metric)(), dtype=float)         # noqa
+                    reps = np.stack([gm(p_) for p_ in pool])
+                    est = np.asarray(vals.values, dtype=float)
+                    exp = {}
+                    for tag, divs in (("A", [om(src_)] * 5), ("B", [om(p_) for p_ in pool])):
+                        rr = reps.copy()
+                        if normalize == "by_overall":
+                            for k_ in range(5):
+                                d_ = np.where(divs[k_] != 0, divs[k_], 1.0)
+                                rr[k_] = np.where(divs[k_] != 0, rr[k_] / d_, rr[k_])
+                        ci_ = np.asarray(_ci(theta=rr, theta_hat=est, alpha=0.05, method=method))
+                        exp[tag] = {"lower": [[fx6(x) for x in row] for row in ci_[..., 0]],
+                                    "upper": [[fx6(x) for x in row] for row in ci_[..., 1]]}
+                    e["out"]["expected"] = exp
         except Exception as ex:  # noqa
             e["exc"] = f"{type(ex).__name__}: {ex}"[:200]
     return e
